@@ -296,6 +296,74 @@ def checksig_sequences(ctx, cs: Cases, signers: dict, report):
 
 
 # ------------------------------------------------------------------------------------------------
+# boundary message lengths (digest size, hash block sizes)
+# ------------------------------------------------------------------------------------------------
+
+def boundary_lengths(ctx, cs: Cases, signers: dict, secrets: dict, report):
+    """Messages of length 0, 1, 31, 32, 33, 63, 64, 65, 127, 128, 129 (and the 32-byte one as a 64-digit hex string) for every
+    curve: (A) what the native primitive receives (recorded call vs the model's digest discipline), (B) the independent verifier
+    over blake2b-256(message), and the message/digest confusion: a signature over M must not verify for blake2b-256(M) nor one
+    over blake2b-256(M) for M."""
+    import hashlib
+    from pytezos.crypto.encoding import base58_decode
+    from pytezos.crypto.key import Key
+    rng = ctx.rng
+    for curve, k in signers.items():
+        heavy = curve == b'BL'
+        c = curve.decode()
+        lengths = [0, 1, 31, 32, 33, 63, 64, 65, 127, 128, 129]
+        if heavy:
+            lengths = [32, 64] if not ctx.thorough else [0, 31, 32, 33, 64, 128]
+        elif not ctx.thorough:
+            lengths = [0, 1, 31, 32, 33, 64, 65, 128]
+        pub, sec = k.public_point, k.secret_exponent
+        pubonly = Key.from_public_point(pub, curve)
+        msgs = []
+        for ln in lengths:
+            raw = rng.randbytes(ln)
+            msgs.append((raw, raw))
+            if ln == 32 and not heavy:
+                msgs.append((raw.hex(), raw))
+                msgs.append(('0x' + rng.randbytes(32).hex(), None))
+        for m, mbytes in msgs:
+            if mbytes is None:
+                mbytes = bytes.fromhex(m[2:])
+            generic = rng.random() < 0.5
+            ok, s = impl_sign(cs, pub, sec, curve, m, generic, f'len{len(mbytes)}')
+            rp = {'curve': c, 'secret_exponent': secrets[curve].hex(), 'public_point': pub.hex(), 'message': m if isinstance(m, str) else m.hex(),
+                  'message_is_str': isinstance(m, str), 'message_length': len(mbytes), 'generic': generic,
+                  'repro': f"k=Key.from_secret_exponent(bytes.fromhex('{secrets[curve].hex()}'), b'{c}'); s=k.sign({m!r}, generic={generic})"}
+            if not ok:
+                report(f'signing a {len(mbytes)}-byte message failed ({c}): {s!r}', rp)
+                continue
+            rp['signature'] = s
+            raw_sig = base58_decode(s.encode())
+            if not heavy or len(mbytes) == 32:
+                ind = ck.ref_verify(curve, pub, raw_sig, mbytes)
+                ctx.dist[f'independent-len{len(mbytes)}:{c}:{ind}'] += 1
+                if ind is False:
+                    report(f'an independent implementation rejects the signature of a {len(mbytes)}-byte message over '
+                           + ('the message' if heavy else 'its Blake2b-256 digest'), {**rp, 'raw_signature': raw_sig.hex()})
+            if heavy:
+                continue
+            impl_verify(cs, pub, None, curve, s, m, f'len{len(mbytes)}')
+            # message / digest confusion
+            digest = hashlib.blake2b(mbytes, digest_size=32).digest()
+            ok1, v1 = lib.call(pubonly.verify, s, digest)
+            if ok1:
+                report(f'a signature over a {len(mbytes)}-byte message M is accepted for the different message blake2b-256(M)',
+                       {**rp, 'other_message': digest.hex(), 'repro': rp['repro'] + f"; k.verify(s, bytes.fromhex('{digest.hex()}'))"})
+            ok2, s2 = lib.call(k.sign, digest)
+            if ok2 and digest != mbytes:
+                ok3, v3 = lib.call(pubonly.verify, s2, mbytes)
+                if ok3:
+                    report(f'a signature over blake2b-256(M) is accepted for the {len(mbytes)}-byte message M',
+                           {**rp, 'signed_message': digest.hex(), 'signature': s2})
+            if len(mbytes) in (31, 32, 33):
+                impl_verify(cs, pub, None, curve, s, digest, f'digest-confusion-len{len(mbytes)}')
+
+
+# ------------------------------------------------------------------------------------------------
 # scrub_input stream
 # ------------------------------------------------------------------------------------------------
 
@@ -347,7 +415,7 @@ def run(ctx: lib.Ctx) -> None:
                 'its public half, CHECK_SIGNATURE, then altered message/signature/key (one bit or one byte) and a different key; malformed stream: '
                 'no/empty secret, unknown curve tag, foreign-curve and generic prefixes, bad checksum, truncated text, signature as bytes; plus a '
                 'scrub_input stream over a whitespace/hex/non-ASCII alphabet. non-trivial = the native primitive was reached or the input is '
-                'longer than one character; distinct = distinct (operation, key, message, signature). Cross-curve matrix: every key curve x every signature form '
+                'longer than one character; distinct = distinct (operation, key, message, signature). Boundary message lengths 0/1/31/32/33/63/64/65/127/128/129 (and 32 bytes as 64-digit hex) for every curve with independent verification and message/digest confusion. Cross-curve matrix: every key curve x every signature form '
                 '(each curve prefix, generic, BLsig; genuine and mislabelled spellings) made by another key; CHECK_SIGNATURE sequences: the same signature bytes '
                 'under two prefixes executed one after the other in both orders, each verdict compared with an independent verification.')
     ctx.assumptions.append(
@@ -365,6 +433,7 @@ def run(ctx: lib.Ctx) -> None:
     cs = Cases(ctx)
 
     first_keys: dict = {}
+    first_secrets: dict = {}
     per_curve = {b'ed': ctx.n(3, 40), b'sp': ctx.n(3, 40), b'p2': ctx.n(3, 40), b'BL': ctx.n(1, 8)}
     for curve in ck.CURVES:
         for ki in range(per_curve[curve]):
@@ -375,6 +444,7 @@ def run(ctx: lib.Ctx) -> None:
                 continue
             pub, sec = k.public_point, k.secret_exponent
             first_keys.setdefault(curve, k)
+            first_secrets.setdefault(curve, secret)
             pk_txt = k.public_key()
             for mi in range(ctx.n(1, 2) if curve == b'BL' else ctx.n(2, 3)):
                 m, mbytes = ck.rand_message(rng)
@@ -490,6 +560,7 @@ def run(ctx: lib.Ctx) -> None:
                     gen = k.sign(m, generic=True)
                     impl_verify(cs, pub, None, b'xx', gen, m, 'unknown-curve-generic')
 
+    boundary_lengths(ctx, cs, first_keys, first_secrets, report)
     cross_curve(ctx, cs, first_keys, report)
     checksig_sequences(ctx, cs, first_keys, report)
     run_scrub(ctx, cs, ctx.n(80, 3000), report)
